@@ -263,6 +263,35 @@ pub fn run(ctx: &mut Ctx) {
             }
         }
     }
+    // --- every written UTC offset and digit runs of any length inside literals ---------------------------------------
+    if ctx.shard == ctx.nshards.saturating_sub(1).min(1) && ctx.begin("offset-sweep", 0) {
+        for hh in 0..=30u32 {
+            for mm in [0u32, 1, 15, 30, 45, 59, 60, 61, 99] {
+                for sign in ['+', '-'] {
+                    ctx.eval("offset-sweep", crate::prng::mix(&[hh as u64, mm as u64, sign as u64]), true);
+                    for doc in [
+                        format!("ts == 2021-08-06T17:05:00{sign}{hh:02}:{mm:02} London"),
+                        format!("ts == 2021-08-06T17:05:00{sign}{hh:02}:{mm:02}"),
+                        format!("(ts < 2021-08-06T17:05:00.5{sign}{hh:02}:{mm:02} New_York) and a"),
+                        format!("ts >= 2021-08-06T17:05:00{sign}{hh:02}{mm:02} UTC"),
+                    ] {
+                        let _ = parse_monitored(ctx, doc.as_bytes(), "offset-sweep");
+                    }
+                }
+            }
+        }
+        for n in [1usize, 2, 9, 10, 11, 19, 20, 21, 39, 40, 308, 309, 310, 400, 1100, 5000] {
+            let run = "9".repeat(n);
+            let zeros = "0".repeat(n);
+            ctx.eval("digit-runs", n as u64, true);
+            for doc in [
+                format!("x < 1e{run}"), format!("x >= 1e-{run}"), format!("x == 2.5E+{run}kW"), format!("x == 1e{zeros}1"), format!("x == {run}"), format!("x != -{run}.{run}"), format!("x == 0.{zeros}1"),
+                format!("x == {run}-01-01"), format!("x == 2021-01-01T00:00:00.{run}Z"), format!("x == 12:00:00.{run}"), format!("x == 1e+_{run}"),
+            ] {
+                let _ = parse_monitored(ctx, doc.as_bytes(), "digit-runs");
+            }
+        }
+    }
     // --- valid filters: the text, its prefixes, its mutants; evaluation of whatever parses ----------
     let n = ctx.n(3_000, 80_000);
     for i in 0..n {
